@@ -118,7 +118,7 @@ CLAIMED = {
     technique="Coq proof (Schur complement algebra, block determinant) + history execution against oracle",
     ref="DESIGN.md section 6, C13"),
  "C16": dict(
-    text="Coq theorem by complete enumeration (vm_compute, lifted with forallb_forall) of a shape table REGENERATED on every run from dead-code-eliminated jaxprs of 28 scalable entry points (incl. conditioning with banded / diagonal predictive noise and an alternative kernel): "
+    text="Coq theorem by complete enumeration (vm_compute, lifted with forallb_forall) of a shape table REGENERATED on every run from dead-code-eliminated jaxprs of 31 scalable entry points (incl. conditioning with banded / diagonal predictive noise and an alternative kernel): "
          "no intermediate has two data-sized dimensions and no shape inside a data-length loop body depends on N or T; a generic theorem then gives, for every N and T, that the total element count "
          "of each entry point is an affine function of (N, T). The dense covariance is a positive control that the same predicate rejects.",
     note="PARTIAL: faithfulness of jax.make_jaxpr/DCE to execution and the affine fit (five traces) are trusted; XLA may fuse or rematerialise. Binary-search loops of searchsorted contribute log-sized dimensions recorded as a constant bound 64.",
@@ -128,7 +128,7 @@ CLAIMED = {
  "C17": dict(
     text="Machine-checked (any real-closed field, every vector length): the sortedness check raises iff the coordinates are not non-decreasing; sorted inputs with ties are accepted, a single inversion at "
          "any position is rejected, assume_sorted bypasses the check; decision tables for X_test validation, rank checks and the quasiseparable operator family checks. Exact correspondence of the predicate on "
-         "every inversion position for lengths <= 5/6 (incl. 1e-9 inversions), eager ValueError, error at execution under jit and vmap, structured coordinates, and a 28-row table of the other documented ValueErrors (incl. partial leaf mismatches of a structured X_test).",
+         "every inversion position for lengths <= 5/6 (incl. 1e-9 inversions), eager ValueError, error at execution under jit and vmap, structured coordinates, and a 31-row table of the other documented ValueErrors (incl. partial leaf mismatches of a structured X_test).",
     note="PARTIAL: delivery of the host callback's exception under jit/vmap is JAX runtime behaviour (observed, not proved).",
     technique="Coq proof (sorted <-> no adjacent inversion) + exact correspondence + exception table",
     ref="DESIGN.md section 6, C17"),
